@@ -21,7 +21,28 @@ Decides from the source:
   G5  the editor's renumbering of an untied index depends on how many tied
       indices precede it (necessary condition of "removes exactly the
       duplicates").
-Not decided: the renumbering arithmetic itself, name de-duplication suffixes.
+  G6  the reader's decision table, read off as a truth table over its guard
+      atoms, is the grammar's semantics: placeholder -> the indexed value;
+      [callable, args] -> callable(*read args); other list -> element-wise;
+      anything else -> itself;
+  G7  the editor's table likewise: list -> element-wise; placeholder ->
+      placeholder renumbered by  tied -> first tied index;  below the first
+      tied index -> unchanged;  otherwise  old - (#{tied < old} - 1)  (the
+      number of removed duplicates that precede it); anything else -> itself;
+  G8  Model.add_tie: the tied indices are sorted before they are used, the
+      duplicates are deleted from the highest index down and never the first,
+      the new name goes to the first tied index, and every map is rewritten by
+      the editor with the same sorted indices.
+  G9  the writer's decision table (Mapper.convert_to_map), as a truth table
+      over its isinstance atoms restricted to assignments the class hierarchy
+      allows (TransformedPrior is a Prior): sequences, dictionaries, labelled
+      arrays, derived priors, priors and fixed values each go to their own
+      mapper with (value, name) in that order; iterate_mapping maps every
+      element in order; map_dictionary pairs each key with its own mapped
+      value and drops only None; get_parameter_index returns the position the
+      prior has (tie) or will have (len before the append) and appends only
+      when there is no tie.
+Not decided: name de-duplication suffixes; equality test of the tied priors.
 """
 import ast
 
@@ -30,23 +51,31 @@ from hpstatic.interp import Interp
 from hpstatic.loader import AnalysisError
 from hpstatic.terms import (sym, intern, show, subterms, calls_in, NONE, num, kw,
                             atoms_of, is_num)
-from .common import SCATTERER
+from .common import SCATTERER, lt_form
+from hpstatic.logic import select, guard_atoms
+from hpstatic.poly import Canon
+import itertools
 
 MUTATION_TARGETS = {'holopy/core/mapping.py': ['read_map', 'edit_map_indices', 'convert_to_map', 'get_parameter_index', 'check_for_ties', 'add_parameter', 'map_dictionary', 'map_transformed_prior'], 'holopy/inference/model.py': ['add_tie', 'ensure_parameters_are_listlike', 'parameters', 'initial_guess', '_scatterer_from_parameters', 'theory_from_parameters'], 'holopy/scattering/scatterer/scatterer.py': ['from_parameters', 'parameters'], 'holopy/scattering/scatterer/composite.py': ['from_parameters', '_parameters'], 'holopy/scattering/scatterer/spherecluster.py': ['from_parameters', 'scatterers']}
 
 LEVEL = 'other'
 META = dict(
     claimed=True,
-    technique='writer/reader/editor table agreement on the map grammar; effect '
+    technique='truth-table extraction of the map writer / reader / editor (nested '
+              'conditionals evaluated under every class-hierarchy-consistent '
+              'assignment of their guard atoms) compared with the grammar\'s '
+              'semantics; formula conformance of the tie renumbering; effect '
               'analysis of the parallel parameter lists; def-use (dependence) '
               'checks of name-keyed vs list-ordered access; identity-preserving '
               'flow of parameter values through every from_parameters',
-    level_text='Static: decides the structural clauses G1-G5 for every map the '
+    level_text='Static: decides the structural clauses G1-G9 for every map the '
                'writer can produce (the grammar is finite) and every from_parameters '
                'implementation in the package.  These are the conditions under '
                'which "each value lands at every place its prior was used" can '
-               'hold; the combinatorics of tie renumbering beyond the dependence '
-               'fact G5 is not decided.',
+               'hold.  The renumbering formula is compared with the one derived '
+               'from "remove the duplicates indices[1:]"; name de-duplication '
+               'suffixes and the run-time equality test of tied priors are not '
+               'decided.',
     level_note='Trusted: my term extraction for the mapping functions; '
                'copy/deepcopy create new objects; list.append / del semantics.',
 )
@@ -67,6 +96,10 @@ def run(check, prog):
     ordering(check, prog)
     rebuilding(check, prog)
     renumbering(check, prog)
+    reader_table(check, prog)
+    editor_table(check, prog)
+    tie(check, prog)
+    writer_table(check, prog)
     # "applies the transformations": a derived prior must denote the arithmetic
     # that was written (shared rule with C14)
     from . import c14
@@ -307,12 +340,31 @@ def lockstep(check, prog):
     # ties by identity
     q = MAP + 'Mapper.check_for_ties'
     fd = prog.func(q)
-    cmps = [n for n in ast.walk(fd) if isinstance(n, ast.Compare)]
-    ok = len(cmps) == 1 and isinstance(cmps[0].ops[0], ast.Is)
+    itc = Interp(prog, max_depth=1)
+    rc = itc.analyze(q)
+    me = sym(fd.args.args[0].arg)
+    p = sym(fd.args.args[1].arg)
+    plist = intern(('attr', me, 'parameters'))
+    hits = [o for o in rc.returns if o.value != NONE]
+    ok = len(hits) == 1
+    detail = '%d returning paths' % len(hits)
+    if ok:
+        o = hits[0]
+        conds = [(t, pl) for t, pl in o.cond if t[0] != 'loop-iter']
+        ex = [x for x in subterms(o.value) if x[0] == 'elem']
+        # returns the position of the element that *is* the prior
+        ok = len(conds) == 1 and conds[0][1] and conds[0][0][0] == 'cmp' and \
+            conds[0][0][1] == 'is' and p in (conds[0][0][2], conds[0][0][3]) and \
+            any(x == ('elem', plist, x[2]) for x in (conds[0][0][2], conds[0][0][3])
+                if x[0] == 'elem') and \
+            o.value[0] == 'idx' and o.value[2] == num(0) and \
+            o.value[1][0] == 'elem' and o.value[1][1] == ('call', 'enumerate', (plist,), ())
+        detail = 'returns %s when %s' % (show(o.value)[:80],
+                                         [(show(t)[:80], pl) for t, pl in conds])
     check.require(ok, 'G2-ties-by-identity', 'Mapper.check_for_ties',
-                  'an existing parameter is reused only if it *is* the same object',
-                  prog.loc(q, fd), fail_detail='comparison is %s' % (
-                      ast.unparse(cmps[0]) if cmps else None))
+                  'returns the position of the existing parameter that *is* the same '
+                  'object (None otherwise)',
+                  prog.loc(q, fd), fail_detail=detail)
 
 
 # ----------------------------------------------------------------------
@@ -325,13 +377,26 @@ def ordering(check, prog):
     it = Interp(prog, max_depth=1)
     res = it.analyze(q)
     ok = False
-    for o in res.returns:
-        for v in subterms(o.value):
-            if v[0] == 'comp' and v[3] and v[3][0][1] == names:
-                e = v[3][0][0]
-                ok = ok or v[2] == ('idx', sym('pars'), e)
+    pars_ = sym(fd.args.args[1].arg)
+    isd = intern(('call', 'isinstance', (pars_, ('extref', 'dict')), ()))
+    from hpstatic.logic import select
+    as_dict = select(res.ret, lambda t: True if t == isd else None)
+    as_list = select(res.ret, lambda t: False if t == isd else None)
+    if as_dict is not None:
+        v = as_dict
+        if v[0] == 'call' and v[1] == 'list' and len(v[2]) == 1:
+            v = v[2][0]
+        if v[0] == 'comp' and v[3] and v[3][0][1] == names:
+            e = v[3][0][0]
+            ok = v[2] == ('idx', pars_, e)
+    ok = ok and as_list == pars_
     check.require(ok, 'G3-name-keyed-order', 'Model.ensure_parameters_are_listlike',
-                  'dict values are ordered by _parameter_names', prog.loc(q, fd))
+                  'a dict is turned into the list of its values ordered by '
+                  '_parameter_names; anything else is returned as is',
+                  prog.loc(q, fd),
+                  fail_detail='dict -> %s; other -> %s' % (
+                      show(as_dict)[:120] if as_dict else None,
+                      show(as_list)[:60] if as_list else None))
     for prop, attr in (('parameters', None), ('initial_guess', 'guess')):
         q = MODEL + '.' + prop
         fd = prog.func(q)
@@ -466,35 +531,122 @@ def rebuilding(check, prog):
                   'type(self)(**{key: parameters[key] if supplied else own value})',
                   prog.loc(q, prog.func(q)), fail_detail='returns %s' % show(v)[:200])
     # Scatterers.from_parameters: 'i:key' goes to member int(i) under key
+    import string
     q = 'holopy.scattering.scatterer.composite.Scatterers.from_parameters'
     fd = prog.func(q)
-    it = Interp(prog, max_depth=1)
+    me = sym(fd.args.args[0].arg)
+    newp = sym(fd.args.args[1].arg)
+    members = intern(('attr', me, 'scatterers'))
+    it = Interp(prog, max_depth=1,
+                opaque=['holopy.core.holopy_object.HoloPyObject._iteritems'])
     res = it.analyze(q)
-    st = [e for e in it.effects if e['kind'] == 'setitem' and
-          e['target_src'].startswith('collected')]
+    st = [e for e in it.effects if e['kind'] == 'setitem' and e['base'][0] == 'idx' and
+          e['base'][2][0] == 'call' and e['base'][2][1] == 'int']
     ok = len(st) == 1
+    detail = '%d stores into a member\'s dictionary' % len(st)
     if ok:
         e = st[0]
-        key, val = e['key'], e['value']
-        base = e['base']
-        split = [c for c in calls_in(base, 'split')] + [c for c in calls_in(key, 'split')]
-        ok = bool(split) and all(c[2] == (('const', ':'), num(1)) for c in split) and \
-            base[0] == 'idx' and base[2][0] == 'call' and base[2][1] == 'int' and \
-            val[0] == 'idx' and val[2] == num(1)
+        key, val, base = e['key'], e['value'], e['base']
+        itm = [x for x in subterms(key) if x[0] == 'elem' and
+               x[1] == ('call', ('attr', newp, 'items'), (), ())]
+        ok = bool(itm)
+        if ok:
+            full = intern(('idx', itm[0], num(0)))
+            parts = intern(('call', ('attr', full, 'split'), (('const', ':'), num(1)), ()))
+            conds = [(t, p) for t, p in e['cond'] if t[0] != 'loop-iter']
+            ok = base[2][2] == (('idx', parts, num(0)),) and \
+                key == ('idx', parts, num(1)) and val == ('idx', itm[0], num(1)) and \
+                conds == [(('cmp', '==', ('call', 'len', (parts,), ()), num(2)), True)]
+            detail = 'stores %s[%s] = %s under %s' % (
+                show(base)[:80], show(key)[:60], show(val)[:40],
+                [(show(t)[:60], p) for t, p in conds])
     check.require(ok, 'G4-composite-distribution', 'Scatterers.from_parameters',
                   "entry 'i:key' is handed to member int(i) under 'key' (split at the "
-                  'first colon)', prog.loc(q, fd))
+                  'first colon; entries without a colon are ignored)', prog.loc(q, fd),
+                  fail_detail=detail)
+    # ... every member is rebuilt from its own dictionary and the rebuilt list
+    # replaces .scatterers in the constructor arguments
+    v = res.ret
+    ok = v[0] == 'call' and v[1] == ('call', 'type', (me,), ()) and \
+        dict(v[3]).get('**') is not None
+    detail = 'returns %s' % show(v)[:160]
+    if ok:
+        d = dict(v[3])['**']
+        ok = d[0] == 'upd' and d[3] == ('const', 'scatterers') and \
+            d[1] == ('call', 'dict', (('call', ('attr', me, '_iteritems'), (), ()),), ())
+        if ok:
+            lst = d[4]
+            if lst[0] == 'call' and lst[1] == 'list' and len(lst[2]) == 1:
+                lst = lst[2][0]
+            ok = lst[0] == 'comp' and lst[2][0] == 'call' and len(lst[2][2]) == 1 and \
+                lst[2][1][0] == 'attr' and lst[2][1][2] == 'from_parameters' and \
+                lst[2][1][1][0] == 'elem' and lst[2][1][1][1] == members
+            if ok:
+                arg = lst[2][2][0]
+                ok = arg[0] == 'elem' and arg[1][0] == 'loop' and \
+                    arg[2] == lst[2][1][1][2]
+                if ok:
+                    init = arg[1][3]
+                    if init[0] == 'call' and init[1] == 'list' and len(init[2]) == 1:
+                        init = init[2][0]
+                    ok = init[0] == 'comp' and init[2] == ('dict', ()) and \
+                        init[3][0][1] == ('call', 'range', (
+                            ('call', 'len', (members,), ()),), ())
+            detail = 'rebuilt members are %s' % show(d[4])[:200]
+    check.require(ok, 'G4-composite-rebuild', 'Scatterers.from_parameters',
+                  'member i is rebuilt by its own from_parameters from dictionary i '
+                  '(one per member) and the rebuilt list replaces .scatterers',
+                  prog.loc(q, fd), fail_detail=detail)
     q2 = 'holopy.scattering.scatterer.composite.Scatterers._parameters'
+    fd2 = prog.func(q2)
     it = Interp(prog, max_depth=1)
     res = it.analyze(q2)
-    fm = [c for c in subterms(('tuple', tuple(
-        lp['vars'][n][1] for lp in it.loops.values() for n in lp['vars']
-        if lp['vars'][n][1] is not None))) if c[0] == 'call' and
-        isinstance(c[1], tuple) and c[1][0] == 'attr' and c[1][2] == 'format']
-    ok = bool(fm) and fm[0][1][1] == ('const', '{0}:{1}')
+    v = res.ret
+    me2 = sym(fd2.args.args[0].arg)
+    ok = v[0] == 'loop' and v[3] == ('dict', ()) and \
+        v[5] == ('call', 'enumerate', (('attr', me2, 'scatterers'),), ())
+    detail = 'returns %s' % show(v)[:200]
+    if ok:
+        step = v[4]
+        ok = step[0] == 'mut' and step[2] == 'update' and step[1][0] == 'phi' and \
+            len(step[3]) == 1
+        if ok:
+            cp = step[3][0]
+            if cp[0] == 'call' and cp[1] == 'dict' and len(cp[2]) == 1:
+                cp = cp[2][0]
+            ok = cp[0] == 'comp' and len(cp[3]) == 1 and cp[2][0] == 'tuple'
+            if ok:
+                k, val = cp[2][1]
+                e = cp[3][0][0]
+                src = cp[3][0][1]
+                member = [x for x in subterms(src) if x[0] == 'elem' and
+                          x[1] == ('attr', me2, 'scatterers')]
+                ok = bool(member) and src == (
+                    'call', ('attr', ('attr', member[0], '_parameters'), 'items'), (), ())
+                ok = ok and val == ('idx', e, num(1)) and k[0] == 'call' and \
+                    isinstance(k[1], tuple) and k[1][2] == 'format' and \
+                    k[1][1][0] == 'const'
+                if ok:
+                    # reconstruct the text the format call produces
+                    outp = []
+                    auto = 0
+                    for lit, field, spec, conv in string.Formatter().parse(k[1][1][1]):
+                        if lit:
+                            outp.append(lit)
+                        if field is not None:
+                            if field == '':
+                                field = str(auto)
+                                auto += 1
+                            outp.append(k[2][int(field)] if field.isdigit() and
+                                        int(field) < len(k[2]) else None)
+                    i_t = [x for x in subterms(k) if x[0] == 'idx' and x[2] == num(0)
+                           and x[1][0] == 'elem' and x[1][1][0] == 'call' and
+                           x[1][1][1] == 'enumerate']
+                    ok = bool(i_t) and outp == [i_t[0], ':', intern(('idx', e, num(0)))]
+                    detail = 'key is %s' % show(k)[:120]
     check.require(ok, 'G4-composite-distribution', 'Scatterers._parameters',
-                  "member i's parameter key is flattened to 'i:key'",
-                  prog.loc(q2, prog.func(q2)))
+                  "every member i contributes all its parameters, key flattened to "
+                  "'i:key', value unchanged", prog.loc(q2, fd2), fail_detail=detail)
     # RigidCluster: rotated then translated in both places
     RC = 'holopy.scattering.scatterer.spherecluster.RigidCluster'
     orders = {}
@@ -566,3 +718,513 @@ def renumbering(check, prog):
                       'indices with the old index element-wise: an index lying '
                       'between tied ones is shifted by a wrong amount' %
                       show(new)[:200])
+
+
+# ----------------------------------------------------------------------
+def _truth_table(value, classify):
+    """Enumerate all assignments of the guard atoms of a nested conditional;
+    yields (assignment dict, leaf).  `classify(atom)` names the atom or returns
+    None for an atom the rule does not know (-> analysis error)."""
+    atoms = guard_atoms(value)
+    names = []
+    for a in atoms:
+        n = classify(a)
+        if n is None and a[0] == 'cmp' and a[1] == '!=':
+            n = classify(intern(('cmp', '==', a[2], a[3])))
+            n = None if n is None else '!' + n
+        if n is None:
+            raise AnalysisError('unrecognised guard %s' % show(a)[:120])
+        names.append(n)
+    for vals in itertools.product((True, False), repeat=len(atoms)):
+        asg = dict(zip(atoms, vals))
+        named = {}
+        consistent = True
+        for a, n, v in zip(atoms, names, vals):
+            if n.startswith('!'):
+                n, v = n[1:], not v
+            if n in named and named[n] != v:
+                consistent = False
+            named[n] = v
+        if not consistent:
+            continue
+        leaf = select(value, lambda t: asg.get(t))
+        yield named, leaf
+
+
+def _is_prefix_test(a, entry):
+    return a[0] == 'cmp' and a[1] == '==' and any(
+        x[0] == 'idx' and x[1] == entry and x[2][0] == 'slice' for x in (a[2], a[3])) \
+        and any(x[0] == 'const' and isinstance(x[1], str) for x in (a[2], a[3]))
+
+
+def _isinstance_of(a, entry, tname):
+    return a[0] == 'call' and a[1] == 'isinstance' and len(a[2]) == 2 and \
+        a[2][0] == entry and a[2][1] in (('extref', 'builtins.' + tname),
+                                          ('extref', tname), ('global', tname),
+                                          ('classref', tname), ('builtin', tname)) or \
+        (a[0] == 'call' and a[1] == 'isinstance' and len(a[2]) == 2 and
+         a[2][0] == entry and show(a[2][1]) == tname)
+
+
+def _recursion(leaf, fname, entry_seq, second):
+    """leaf is [f(elem, second) for elem in entry_seq] (list / list-comp)"""
+    t = leaf
+    if t[0] == 'call' and t[1] == 'list' and len(t[2]) == 1:
+        t = t[2][0]
+    if t[0] != 'comp' or len(t[3]) != 1:
+        return False
+    target, itr = t[3][0][0], t[3][0][1]
+    if itr != entry_seq or (len(t[3][0]) > 2 and t[3][0][2]):
+        return False
+    e = t[2]
+    return e[0] == 'call' and e[1] == fname and len(e[2]) == 2 and \
+        e[2][0] == target and e[2][1] == second and not e[3]
+
+
+def reader_table(check, prog):
+    q = MAP + 'read_map'
+    fd = prog.func(q)
+    loc = prog.loc(q, fd)
+    it = Interp(prog, max_depth=0)
+    res = it.analyze(q)
+    entry, pv = [sym(a.arg) for a in fd.args.args[:2]]
+
+    def classify(a):
+        if _isinstance_of(a, entry, 'str'):
+            return 'S'
+        if _isinstance_of(a, entry, 'list'):
+            return 'L'
+        if _is_prefix_test(a, entry):
+            return 'P'
+        if a[0] == 'cmp' and a[1] == '==' and a[2] == ('call', 'len', (entry,), ()) and \
+                is_num(a[3]):
+            return 'N%d' % a[3][1]
+        if a[0] == 'call' and a[1] == 'callable' and len(a[2]) == 1 and \
+                a[2][0][0] == 'idx' and a[2][0][1] == entry and is_num(a[2][0][2]):
+            return 'C' if a[2][0][2] == num(0) else 'C%d' % a[2][0][2][1]
+        return None
+    n = 0
+    bad = []
+    for named, leaf in _truth_table(res.ret, classify):
+        S, L, P = named.get('S'), named.get('L'), named.get('P')
+        if S and L:
+            continue       # a value is not both a string and a list
+        if P and not S:
+            continue       # the prefix test is only evaluated on strings
+        n += 1
+        N2, C = named.get('N2'), named.get('C')
+        if N2 is None or C is None or leaf is None:
+            bad.append((named, 'guards %s do not decide the row' % sorted(named)))
+            continue
+        if S and P:
+            want = 'value'
+            ok = leaf[0] == 'idx' and leaf[1] == pv and leaf[2][0] == 'call' and \
+                leaf[2][1] == 'int' and leaf[2][2][0][0] == 'idx' and \
+                leaf[2][2][0][1] == entry and leaf[2][2][0][2][0] == 'slice'
+        elif L and N2 and C:
+            want = 'application'
+            ok = leaf[0] == 'call' and leaf[1] == ('idx', entry, num(0)) and \
+                len(leaf[2]) == 1 and leaf[2][0][0] == 'star' and not leaf[3] and \
+                _recursion(leaf[2][0][1], q, intern(('idx', entry, num(1))), pv)
+        elif L:
+            want = 'element-wise'
+            ok = _recursion(leaf, q, entry, pv)
+        else:
+            want = 'unchanged'
+            ok = leaf == entry
+        if not ok:
+            bad.append((named, 'expected %s, found %s' % (want, show(leaf)[:120])))
+    check.floor('rows of the read_map truth table', n, 12)
+    check.require(not bad, 'G6-reader-table', 'read_map',
+                  'placeholder -> indexed value; [callable, args] -> callable(*read '
+                  'args); list -> element-wise; else unchanged (%d rows)' % n, loc,
+                  fail_detail='; '.join('%s: %s' % (
+                      ','.join('%s=%s' % (k, 'T' if v else 'F')
+                               for k, v in sorted(nm.items())), w)
+                      for nm, w in bad[:3]))
+
+
+def editor_table(check, prog):
+    q = MAP + 'edit_map_indices'
+    fd = prog.func(q)
+    loc = prog.loc(q, fd)
+    it = Interp(prog, max_depth=0)
+    res = it.analyze(q)
+    entry, ind = [sym(a.arg) for a in fd.args.args[:2]]
+    first = intern(('idx', ind, num(0)))
+    olds = []
+
+    def old_index(t):
+        """int(<the whole remainder of the placeholder>)"""
+        if t[0] == 'call' and t[1] == 'int' and len(t[2]) == 1:
+            a = t[2][0]
+            if a[0] == 'idx' and a[1] == entry and a[2][0] == 'slice':
+                return True
+            if a[0] == 'idx' and a[2] == num(-1) and a[1][0] == 'call' and \
+                    a[1][1] == ('attr', entry, 'split'):
+                return True
+        return False
+
+    def classify(a):
+        if _isinstance_of(a, entry, 'str'):
+            return 'S'
+        if _isinstance_of(a, entry, 'list'):
+            return 'L'
+        if _is_prefix_test(a, entry):
+            return 'P'
+        if a[0] == 'cmp' and a[1] == 'in' and a[3] == ind and old_index(a[2]):
+            olds.append(a[2])
+            return 'IN'
+        f = lt_form(a)
+        # `<=` is the same test here: equality with the first tied index is the
+        # tied case, which the IN rows cover
+        if f and f[0] in ('<', '<=') and f[2] == first and old_index(f[1]):
+            olds.append(f[1])
+            return 'LT'
+        return None
+    n = 0
+    bad = []
+    c0 = Canon()
+    for named, leaf in _truth_table(res.ret, classify):
+        S, L, P = named.get('S'), named.get('L'), named.get('P')
+        if (S and L) or (P and not S):
+            continue
+        if leaf is None:
+            n += 1
+            bad.append((named, 'guards %s do not decide the row' % sorted(named)))
+            continue
+        if L:
+            n += 1
+            if not _recursion(leaf, q, entry, ind):
+                bad.append((named, 'expected element-wise, found %s' % show(leaf)[:160]))
+            continue
+        if not (S and P):
+            n += 1
+            if leaf != entry:
+                bad.append((named, 'expected unchanged, found %s' % show(leaf)[:160]))
+            continue
+        # placeholder: '<prefix>{}'.format(new index); the new index is itself a
+        # conditional over (old in tied) and (old < first tied)
+        if not (leaf[0] == 'call' and isinstance(leaf[1], tuple) and
+                leaf[1][0] == 'attr' and leaf[1][2] == 'format' and
+                leaf[1][1][0] == 'const' and len(leaf[2]) == 1):
+            n += 1
+            bad.append((named, 'expected a renumbered placeholder, found %s'
+                        % show(leaf)[:160]))
+            continue
+        for sub, new in _truth_table(leaf[2][0], classify):
+            IN, LT = sub.get('IN'), sub.get('LT')
+            if IN and LT:
+                continue   # indices are sorted: a tied index is not below the first
+            n += 1
+            row = dict(named)
+            row.update(sub)
+            old = olds[0] if olds else None
+            if new is None or old is None or IN is None or LT is None or \
+                    any(o != old for o in olds):
+                bad.append((row, 'the renumbering is not decided by (old in tied, '
+                            'old < first tied)'))
+                continue
+            if IN:
+                want, ok = 'first tied index', new == first
+            elif LT:
+                want, ok = 'unchanged index', new == old
+            else:
+                want = 'old - (#{tied < old} - 1)'
+                cnt = [x for x in subterms(new) if x[0] == 'call' and (
+                    (isinstance(x[1], tuple) and x[1][0] == 'attr' and
+                     x[1][2] == 'sum' and not x[2]) or x[1] in ('numpy.sum', 'sum'))]
+                ok = False
+                for c in cnt:
+                    arg = c[1][1] if isinstance(c[1], tuple) else c[2][0]
+                    f = lt_form(arg)
+                    if not (f and f[0] == '<' and f[2] == old and f[1] in (
+                            ind, intern(('call', 'numpy.array', (ind,), ())),
+                            intern(('call', 'numpy.asarray', (ind,), ())))):
+                        continue
+                    wantt = intern(('bin', '-', old, ('bin', '-', c, num(1))))
+                    if c0.equal(new, wantt):
+                        ok = True
+            if not ok:
+                bad.append((row, 'expected %s, found %s' % (want, show(new)[:160])))
+    check.floor('rows of the edit_map_indices truth table', n, 6)
+    check.require(not bad, 'G7-editor-table', 'edit_map_indices',
+                  'list -> element-wise; placeholder -> tied: first tied index / below '
+                  'the first: unchanged / else old - (#{tied < old} - 1); other -> '
+                  'unchanged (%d rows)' % n, loc,
+                  fail_detail='; '.join('%s: %s' % (
+                      ','.join('%s=%s' % (k, 'T' if v else 'F')
+                               for k, v in sorted(nm.items())), w)
+                      for nm, w in bad[:3]))
+
+
+def tie(check, prog):
+    q = MODEL + '.add_tie'
+    fd = prog.func(q)
+    loc = prog.loc(q, fd)
+    it = Interp(prog, max_depth=1, opaque=[MAP + 'edit_map_indices'])
+    res = it.analyze(q)
+    s = sym(fd.args.args[0].arg)
+    names = intern(('attr', s, '_parameter_names'))
+    pars = intern(('attr', s, '_parameters'))
+
+    def is_sorted(t):
+        return t[0] == 'mut' and t[2] == 'sort' and not t[3]
+    # every use of the tied indices after collection is of the sorted list
+    dels = [e for e in it.effects if e['kind'] == 'delete']
+    ed = [c for c in it.calls if c['name'] == MAP + 'edit_map_indices']
+    okd = len(dels) == 2 and {e['base'] for e in dels} == {names, pars}
+    detail = 'deletes: %s' % [e.get('target_src') for e in dels]
+    if okd:
+        okd = all(e['target'][0] == 'idx' for e in dels)
+        k0, k1 = (dels[0]['target'][2], dels[1]['target'][2]) if okd else (None, None)
+        okd = okd and k0 == k1 and k0[0] == 'elem'
+        if okd:
+            itr = k0[1]
+            base = itr
+            desc = False
+            if itr[0] == 'idx' and itr[2] == ('slice', NONE, num(0), num(-1)):
+                base, desc = itr[1], True        # indices[:0:-1]
+            elif itr[0] == 'call' and itr[1] == 'reversed' and itr[2][0][0] == 'idx' and \
+                    itr[2][0][2] == ('slice', num(1), NONE, NONE):
+                base, desc = itr[2][0][1], True  # reversed(indices[1:])
+            okd = desc and is_sorted(base)
+            detail = 'the deletion loop runs over %s' % show(itr)[:160]
+    check.require(okd, 'G8-tie-removes-duplicates', 'Model.add_tie deletions',
+                  'parameters and names at the tied indices except the first are '
+                  'deleted, highest index first, from the sorted index list', loc,
+                  fail_detail=detail + ': deleting in another order (or from an '
+                  'unsorted list) removes the wrong parameters')
+    oke = len(ed) == 1 and len(ed[0]['args']) == 2 and is_sorted(ed[0]['args'][1])
+    st = [e for e in it.effects if e['kind'] == 'setattr' and e['attr'] == '_maps']
+    if oke:
+        oke = len(st) == 1 and any(x[0] == 'comp' for x in subterms(st[0]['value']))
+        if oke:
+            cp = [x for x in subterms(st[0]['value']) if x[0] == 'comp'][0]
+            itm = cp[3][0][1]
+            oke = itm == ('call', ('attr', ('attr', s, '_maps'), 'items'), (), ()) and \
+                ed[0]['args'][0][0] in ('idx', 'elem')
+    check.require(oke, 'G8-tie-rewrites-maps', 'Model.add_tie maps',
+                  'every entry of _maps is rewritten by edit_map_indices with the '
+                  'sorted tied indices', loc)
+    nm = [e for e in it.effects if e['kind'] == 'setitem' and e['base'] == names or
+          (e['kind'] == 'setitem' and e['base'][0] in ('mut', 'phi', 'loop', 'upd')
+           and any(x == names for x in subterms(e['base'])))]
+    okn = len(nm) == 1 and nm[0]['key'][0] == 'idx' and nm[0]['key'][2] == num(0) and \
+        is_sorted(nm[0]['key'][1]) and nm[0]['value'] == sym('new_name')
+    if okn:
+        conds = [(t, pl) for t, pl in nm[0]['cond'] if t[0] != 'loop-iter']
+        okn = conds == [(('cmp', 'is not', sym('new_name'), NONE), True)] or \
+            conds == [(('cmp', 'is', sym('new_name'), NONE), False)]
+    # the sorted list is the list of positions of the named parameters
+    srt = nm[0]['key'][1] if nm and nm[0]['key'][0] == 'idx' else None
+    okc = False
+    tied = sym(fd.args.args[1].arg)
+    if srt is not None and is_sorted(srt) and srt[1][0] == 'loop':
+        lp_ = srt[1]
+        step = lp_[4]
+        okc = lp_[3] == ('list', ()) and lp_[5] == tied and step[0] == 'mut' and \
+            step[2] == 'append' and step[1][0] == 'phi' and len(step[3]) == 1 and \
+            step[3][0] == ('call', ('attr', names, 'index'),
+                           (('elem', tied, lp_[2]),), ())
+    check.require(okc, 'G8-tie-collects-positions', 'Model.add_tie indices',
+                  'the tied indices are the positions of the given names in '
+                  '_parameter_names, one per name', loc,
+                  fail_detail='indices are %s' % (show(srt)[:200] if srt else None))
+    unknown = [o for o in res.raises if any(
+        lt == ('cmp', 'not in', ('elem', tied, lt[2][2] if lt[2][0] == 'elem' else None),
+               names) and pl
+        for lt, pl in o.cond if lt[0] == 'cmp')]
+    uneq = [o for o in res.raises if o not in unknown]
+    oku = len(uneq) == 1
+    if oku:
+        cs = [(t, pl) for t, pl in uneq[0].cond if t[0] != 'loop-iter' and
+              not (t[0] == 'cmp' and t[1] == 'not in')]
+        oku = len(cs) == 1 and cs[0][0][0] == 'cmp' and (
+            (cs[0][0][1] == '==' and cs[0][1] is False) or
+            (cs[0][0][1] == '!=' and cs[0][1] is True)) and \
+            all(any(x[0] == 'attr' and x[2] == 'renamed' for x in subterms(side))
+                for side in (cs[0][0][2], cs[0][0][3]))
+    check.require(oku, 'G8-tie-rejects-unequal', 'Model.add_tie',
+                  'parameters are rejected iff their priors (names removed) differ '
+                  'from the first one', loc,
+                  fail_detail='raising paths: %s' % [
+                      [(show(t)[:80], pl) for t, pl in o.cond if t[0] != 'loop-iter']
+                      for o in uneq])
+    check.require(len(unknown) == 1, 'G8-tie-rejects-unknown', 'Model.add_tie',
+                  'a name that is not a parameter is rejected (and only then)', loc,
+                  fail_detail='raising paths: %s' % [
+                      [(show(t)[:60], pl) for t, pl in o.cond if t[0] != 'loop-iter']
+                      for o in res.raises])
+    check.require(okn, 'G8-tie-names-first', 'Model.add_tie new name',
+                  'the new name is stored at the first tied index', loc,
+                  fail_detail='stores: %s' % [(show(e['key'])[:80], show(e['value'])[:40])
+                                              for e in nm])
+
+
+# ----------------------------------------------------------------------
+def writer_table(check, prog):
+    M = MAP + 'Mapper.'
+    helpers = ['iterate_mapping', 'map_dictionary', 'map_xarray',
+               'map_transformed_prior', 'get_parameter_index']
+    q = M + 'convert_to_map'
+    fd = prog.func(q)
+    loc = prog.loc(q, fd)
+    it = Interp(prog, max_depth=1, opaque=[M + h for h in helpers])
+    res = it.analyze(q)
+    s_, par, name = [sym(a.arg) for a in fd.args.args[:3]]
+    PRIOR = 'holopy.core.prior.Prior'
+    TPRIOR = 'holopy.core.prior.TransformedPrior'
+
+    def classify(a):
+        if not (a[0] == 'call' and a[1] == 'isinstance' and len(a[2]) == 2 and
+                a[2][0] == par):
+            return None
+        c = a[2][1]
+        if c[0] == 'tuple':
+            names = {show(x) for x in c[1]}
+            if names == {'list', 'tuple', 'numpy.ndarray'}:
+                return 'SEQ'
+            return None
+        if c == ('extref', 'dict'):
+            return 'DICT'
+        if c == ('extref', 'xarray.DataArray'):
+            return 'XR'
+        if c == ('classref', TPRIOR):
+            return 'TP'
+        if c == ('classref', PRIOR):
+            return 'PR'
+        return None
+
+    def mcall(leaf, m, args):
+        return leaf[0] == 'call' and leaf[1] == ('attr', s_, m) and \
+            tuple(leaf[2]) == tuple(args) and not leaf[3]
+    n = 0
+    bad = []
+    for named, leaf in _truth_table(res.ret, classify):
+        if any(k not in named for k in ('SEQ', 'DICT', 'XR', 'TP', 'PR')):
+            raise AnalysisError('convert_to_map does not test %s' % sorted(
+                set(('SEQ', 'DICT', 'XR', 'TP', 'PR')) - set(named)))
+        if named['TP'] and not named['PR']:
+            continue           # a TransformedPrior is a Prior
+        fam = [named['SEQ'], named['DICT'], named['XR'], named['PR']]
+        if sum(1 for x in fam if x) > 1:
+            continue           # unrelated classes
+        n += 1
+        if leaf is None:
+            bad.append((named, 'row not decided'))
+            continue
+        if named['SEQ']:
+            want = 'iterate_mapping(<name>, enumerate(value))'
+            ok = leaf[0] == 'call' and leaf[1] == ('attr', s_, 'iterate_mapping') and \
+                len(leaf[2]) == 2 and leaf[2][1] == ('call', 'enumerate', (par,), ()) \
+                and any(x == name for x in subterms(leaf[2][0]))
+        elif named['DICT']:
+            want = 'map_dictionary(value, name)'
+            ok = mcall(leaf, 'map_dictionary', (par, name))
+        elif named['XR']:
+            want = 'map_xarray(value, name)'
+            ok = mcall(leaf, 'map_xarray', (par, name))
+        elif named['TP']:
+            want = 'map_transformed_prior(value, name)'
+            ok = mcall(leaf, 'map_transformed_prior', (par, name))
+        elif named['PR']:
+            want = 'placeholder of get_parameter_index(value, name)'
+            ok = leaf[0] == 'call' and isinstance(leaf[1], tuple) and \
+                leaf[1][0] == 'attr' and leaf[1][2] == 'format' and len(leaf[2]) == 1 \
+                and mcall(leaf[2][0], 'get_parameter_index', (par, name))
+        else:
+            want = 'the fixed value itself'
+            ok = leaf == par
+        if not ok:
+            bad.append((named, 'expected %s, found %s' % (want, show(leaf)[:120])))
+    check.floor('rows of the convert_to_map truth table', n, 6)
+    check.require(not bad, 'G9-writer-table', 'Mapper.convert_to_map',
+                  'sequence / dict / labelled array / derived prior / prior / fixed '
+                  'value each go to their own mapper (%d rows)' % n, loc,
+                  fail_detail='; '.join('%s: %s' % (
+                      ','.join(k for k, v in sorted(nm.items()) if v) or 'none', w)
+                      for nm, w in bad[:3]))
+    # iterate_mapping: every pair, in order, value = second element
+    q = M + 'iterate_mapping'
+    fd = prog.func(q)
+    it = Interp(prog, max_depth=1, opaque=[M + 'convert_to_map'])
+    res = it.analyze(q)
+    v = res.ret
+    if v[0] == 'call' and v[1] == 'list' and len(v[2]) == 1:
+        v = v[2][0]
+    pairs = sym(fd.args.args[2].arg)
+    prefix = sym(fd.args.args[1].arg)
+    ok = v[0] == 'comp' and len(v[3]) == 1 and v[3][0][1] == pairs
+    if ok:
+        e = v[3][0][0]
+        c = v[2]
+        ok = c[0] == 'call' and c[1] == ('attr', sym(fd.args.args[0].arg),
+                                         'convert_to_map') and len(c[2]) == 2 and \
+            c[2][0] == ('idx', e, num(1)) and \
+            any(x == prefix for x in subterms(c[2][1])) and \
+            any(x == ('idx', e, num(0)) for x in subterms(c[2][1]))
+    check.require(ok, 'G9-writer-iterates', 'Mapper.iterate_mapping',
+                  'every (suffix, value) pair is mapped, in order, under the name '
+                  'prefix + suffix', prog.loc(q, fd),
+                  fail_detail='builds %s' % show(res.ret)[:200])
+    # map_dictionary: keys paired with their own mapped values; only None dropped
+    q = M + 'map_dictionary'
+    fd = prog.func(q)
+    it = Interp(prog, max_depth=1, opaque=[M + 'iterate_mapping'])
+    res = it.analyze(q)
+    v = res.ret
+    p = sym(fd.args.args[1].arg)
+    ok = v[0] == 'list' and len(v[1]) == 2 and v[1][1][0] == 'list' and \
+        len(v[1][1][1]) == 1
+    detail = 'emits %s' % show(v)[:200]
+    if ok:
+        body = v[1][1][1][0]
+        if body[0] == 'call' and body[1] == 'list' and len(body[2]) == 1:
+            body = body[2][0]
+        ok = body[0] == 'comp' and len(body[3]) == 1
+        if ok:
+            gen = body[3][0]
+            itr = gen[1]
+            keys = intern(('call', ('attr', p, 'keys'), (), ()))
+            items = intern(('call', ('attr', p, 'items'), (), ()))
+            okz = itr[0] == 'call' and itr[1] == 'zip' and len(itr[2]) == 2 and \
+                itr[2][0] in (keys, p) and itr[2][1][0] == 'call' and \
+                itr[2][1][1] == ('attr', sym(fd.args.args[0].arg), 'iterate_mapping') \
+                and itr[2][1][2][1] == items
+            elt = body[2]
+            oke = elt[0] == 'list' and len(elt[1]) == 2 and \
+                elt[1][0] == ('elem', itr[2][0], gen[0][2]) if okz and gen[0][0] == 'elem' \
+                else False
+            conds = gen[2] if len(gen) > 2 else ()
+            okf = len(conds) == 1 and conds[0][0] == 'cmp' and conds[0][1] == 'is not' \
+                and conds[0][3] == NONE and oke and conds[0][2] == elt[1][1]
+            ok = okz and oke and okf
+            detail = 'pairs %s filtered by %s' % (show(itr)[:120],
+                                                  [show(c)[:60] for c in conds])
+    check.require(ok, 'G9-writer-dictionary', 'Mapper.map_dictionary',
+                  '[dict, [[key, mapped value] ...]] with keys and values from the same '
+                  'dictionary order; only None values are dropped', prog.loc(q, fd),
+                  fail_detail=detail + ': a fixed value such as 0 or False would be '
+                  'dropped or paired with the wrong key')
+    # get_parameter_index
+    q = M + 'get_parameter_index'
+    fd = prog.func(q)
+    it = Interp(prog, max_depth=1, opaque=[M + 'check_for_ties', M + 'add_parameter'])
+    res = it.analyze(q)
+    me = sym(fd.args.args[0].arg)
+    p, nm = sym(fd.args.args[1].arg), sym(fd.args.args[2].arg)
+    tie_ = intern(('call', ('attr', me, 'check_for_ties'), (p,), ()))
+    fresh = intern(('call', 'len', (('attr', me, 'parameters'),), ()))
+    notie = intern(('cmp', 'is', tie_, NONE))
+    v = res.ret
+    okv = v == ('ite', notie, fresh, tie_)
+    adds = [c for c in it.calls if c['name'] == M + 'add_parameter']
+    oka = len(adds) == 1 and tuple(adds[0]['args'][-2:]) == (p, nm) and \
+        [(t, pl) for t, pl in adds[0]['cond'] if t[0] != 'loop-iter'] == [(notie, True)]
+    check.require(okv and oka, 'G9-writer-index', 'Mapper.get_parameter_index',
+                  'a tied prior gets the index it already has; a new prior gets '
+                  'len(parameters) and is appended (only then)', prog.loc(q, fd),
+                  fail_detail='returns %s; add_parameter calls under %s' % (
+                      show(v)[:160], [[(show(t)[:60], pl) for t, pl in c['cond']]
+                                      for c in adds]))
